@@ -107,6 +107,8 @@ def active_view(res: e3.BuildResult, *, complete: bool = True) -> dict:
         if kind == "file":
             if ent["state"] in ("OUTDATED", "PLANNED"):
                 ent["state"] = UNBUILT
+            if ent["state"] == "CONFIRMED":
+                ent["digest"] = props.get("digest")
         elif kind == "step":
             done = ent["state"] == "SUCCEEDED"
             env = props.get("using_env", [])
@@ -122,9 +124,9 @@ def active_view(res: e3.BuildResult, *, complete: bool = True) -> dict:
                     continue
                 ent["inp"].append([sk, sdet, dyn])
             for s in node["rel"].get("sink", []):
-                sk, _, dyn = _strip(s)
-                if dyn and not done:
-                    continue
+                sk, sdet, dyn = _strip(s)
+                if (dyn and not done) or sdet:
+                    continue    # a detached sink is a former output kept until the next cleanup
                 ent["out"].append([sk, dyn])
             ent["inp"].sort()
             ent["out"].sort()
@@ -156,7 +158,7 @@ def active_view(res: e3.BuildResult, *, complete: bool = True) -> dict:
     return view
 
 
-PRIORITY = ["rc", "step-state", "extra-step", "missing-step", "content", "file-state", "extra-file",
+PRIORITY = ["rc", "static-digest", "step-state", "extra-step", "missing-step", "content", "file-state", "extra-file",
             "missing-file", "extra-st", "missing-st", "inputs", "outputs", "creator",
             "prop:env", "prop:env_dynamic", "prop:need", "prop:nglob", "prop:resource", "prop:env_overrides"]
 
@@ -189,6 +191,8 @@ def compare(inc: e3.BuildResult, scr: e3.BuildResult) -> list:
             continue
         if a["state"] != b["state"]:
             out.append({"kind": f"{kind}-state", "key": k, "a": a["state"], "b": b["state"]})
+        if a.get("digest") != b.get("digest") and a["state"] == b["state"]:
+            out.append({"kind": "static-digest", "key": k, "a": a.get("digest"), "b": b.get("digest")})
         if a["creator"] != b["creator"]:
             out.append({"kind": "creator", "key": k, "a": a["creator"], "b": b["creator"]})
         if a["inp"] != b["inp"]:
@@ -309,9 +313,11 @@ SIG_D4 = "C01:D4:dropped-static-keeps-consumer-succeeded"
 SIG_D9 = "C01:D9:stale-env-var-after-partial-recycle"
 SIG_F1 = "C01:F1:cleanup-removed-source-directory-then-plan-fails"
 SIG_F2 = "C01:F2:static-of-deleted-source-fails-only-from-scratch"
-SIG_F3 = "C01:F3:optional-step-needed-only-through-amended-output"
+SIG_F3 = "C01:F3:optional-step-needed-only-through-amended-edges"
 SIG_D8 = "C01:D8:stale-implied-need-keeps-optional-step-built"
 SIG_F4 = "C01:F4:stale-amended-input-blocks-redefined-step"
+SIG_F5 = "C01:F5:reattached-static-file-not-revalidated"
+SIG_F6 = "C01:F6:env-var-restored-to-declared-value-leaves-stale-output"
 IMPLIED = "DEFAULT (implied by sinks > OPTIONAL)"
 MISSING_RE = "PathError: Path does not exist: "
 
@@ -396,10 +402,12 @@ def signatures(inc: e3.BuildResult, scr: e3.BuildResult, diffs: list, triggers: 
             ent = va[d["key"]]
             if not any(consumers.get(o) for o, _ in ent["out"]):
                 d8.add(d["key"])        # nothing consumes any output: the cached need is stale (D8)
-            elif any(consumers.get(o) for o, dyn in ent["out"] if dyn) and \
-                    not any(consumers.get(o) for o, dyn in ent["out"] if not dyn and
-                            any(va[c]["props"]["need"] != ["OPTIONAL"] for c in consumers.get(o, ()))):
-                f3.add(d["key"])        # needed only because an earlier run amended an output
+            elif not any(True for o, dyn in ent["out"] if not dyn for c in consumers.get(o, ())
+                         if va[c]["props"]["need"] != ["OPTIONAL"]
+                         and any(sk == o and not sdyn for sk, _, sdyn in va[c]["inp"])):
+                # every edge that makes it needed is run-time knowledge of an earlier build: an
+                # amended output of this step, or an amended input of the consumer
+                f3.add(d["key"])
     for name, seeds in ((SIG_D8, d8), (SIG_F3, f3)):
         if seeds:
             # everything upstream that is needed only through the seed, and everything downstream
@@ -407,6 +415,9 @@ def signatures(inc: e3.BuildResult, scr: e3.BuildResult, diffs: list, triggers: 
             up = {d["key"] for d in diffs if d["kind"] == "prop:need" and d["a"] == [IMPLIED]}
             for k in up:
                 cone |= {k} | {o for o, _ in va[k]["out"]}
+            for k in list(cone):     # what only a run of these steps declares: amended inputs
+                if k in va and va[k]["kind"] == "step":
+                    cone |= {sk for sk, _, dyn in va[k]["inp"] if dyn}
             mine = [d for d in diffs if id(d) not in explained and (d["kind"] == "rc" or d["key"] in cone)]
             sigs[name] = mine
             explained |= {id(d) for d in mine}
@@ -425,6 +436,37 @@ def signatures(inc: e3.BuildResult, scr: e3.BuildResult, diffs: list, triggers: 
         cone = _downstream(va, blocked) | _downstream(vb, blocked)
         mine = [d for d in diffs if id(d) not in explained and (d["kind"] == "rc" or d["key"] in cone)]
         sigs[SIG_F4] = mine
+        explained |= {id(d) for d in mine}
+    # F6: a SUCCEEDED step with tracked variables has outputs that differ from the from-scratch
+    # ones although none of its inputs differs, and its recorded input digest differs too: it ran
+    # last under other variable values and the change back was not noticed (rescan_env_vars
+    # compares with the value recorded at declaration time, not with the one last used).
+    differing = {d["key"] for d in diffs}
+    stale_env = set()
+    for d in diffs:
+        if d["kind"] == "content" and id(d) not in explained:
+            c = va.get(d["key"], {}).get("creator")
+            ent = va.get(c)
+            if ent and ent["state"] == "SUCCEEDED" and (ent["props"]["env"] or ent["props"]["env_dynamic"]) \
+                    and not any(sk in differing for sk, _, _ in ent["inp"]) \
+                    and raw_inc.get(c, {}).get("props", {}).get("inp_digest") != \
+                    raw_scr.get(c, {}).get("props", {}).get("inp_digest"):
+                stale_env.add(c)
+    if stale_env:
+        cone = _downstream(va, stale_env) | _downstream(vb, stale_env)
+        mine = [d for d in diffs if id(d) not in explained and (d["kind"] == "rc" or d["key"] in cone)]
+        sigs[SIG_F6] = mine
+        explained |= {id(d) for d in mine}
+    # F5: a static file shows a state or digest that the file system contradicts: it was
+    # re-attached by a full recycle of its declaring (sub-)plan after the startup rescan, which
+    # only looks at attached files.
+    STATIC = ("MISSING", "CONFIRMED")
+    stale_static = {d["key"] for d in diffs if id(d) not in explained and d["key"].startswith("file:") and (
+        (d["kind"] == "file-state" and d["a"] in STATIC and d["b"] in STATIC) or d["kind"] == "static-digest")}
+    if stale_static:
+        cone = _downstream(va, stale_static) | _downstream(vb, stale_static)
+        mine = [d for d in diffs if id(d) not in explained and (d["kind"] == "rc" or d["key"] in cone)]
+        sigs[SIG_F5] = mine
         explained |= {id(d) for d in mine}
     rest = [d for d in diffs if id(d) not in explained]
     if rest:
